@@ -23,7 +23,8 @@ SPEC = {
     "shards": {"quick": 16, "thorough": 16},
     "min_counts": {"quick": {"evaluations": 150, "kernel_runs": 4000, "leaf_bodies": 20000, "tiled_runs": 1000,
                              "lf_runs": 1000, "uformat_runs": 300, "estimated_shape_runs": 300, "div_tiled_runs": 500,
-                             "float_value_runs": 500, "lf_three_on_one_rank_runs": 200}},
+                             "float_value_runs": 500, "lf_three_on_one_rank_runs": 200,
+                             "right_nested_runs": 300, "long_rank_runs": 500}},
     "assumptions": [
         "integer payloads, leaf default 0 (the idiom's zero-product filter is defined for 0)",
         "each index variable is tiled at most once (two-level tilings of one rank are not generated); no halos",
@@ -38,7 +39,7 @@ def generate(rng, tier, shard, nshards, mon):
     fams = kernels.FAMILIES + kernels.FAMILIES3
     for i in range(n):
         fam = fams[(i * nshards + shard) % len(fams)] if i < 2 * len(fams) else rng.choice(fams)
-        spec = kernels.rand_spec(rng, family=fam, tiles=False)
+        spec = kernels.rand_spec(rng, family=fam, tiles=False, big=(i % 7 == 3))
         vs = kernels.variables(spec)
         if rng.random() < 0.2:
             # non-integer values (dyadic rationals: every sum and product is exact in binary floating point)
@@ -93,9 +94,9 @@ def run_case(case, mon):
             orders = r.sample(orders, case["max_orders"])
         for order in orders:
             for style in ("two-finger", "leader-follower"):
-                for nested in ((True, False) if (len(base["ops"]) == 3 and style == "two-finger") else (True,)):
+                for nested in ((True, False, "right") if (len(base["ops"]) >= 3 and style == "two-finger") else (True,)):
                     s = dict(spec, order=order, style=style)
-                    tag = f"{('tiled-by-div' if divs[ti] else 'tiled') if tiles else 'untiled'}:{style}" + ("" if nested else ":flat-intersection")
+                    tag = f"{('tiled-by-div' if divs[ti] else 'tiled') if tiles else 'untiled'}:{style}" + ("" if nested is True else (":right-nested-intersection" if nested == "right" else ":flat-intersection"))
                     try:
                         tensors, Z, lvars, zl = kernels.build(s)
                         nb = kernels.execute(s, tensors, Z, lvars, zl, nested_and=nested)
@@ -113,6 +114,10 @@ def run_case(case, mon):
                         mon.count("tiled_runs")
                     if divs[ti]:
                         mon.count("div_tiled_runs")
+                    if nested == "right":
+                        mon.count("right_nested_runs")
+                    if max(base["ext"].values()) > 16:
+                        mon.count("long_rank_runs")
                     if base.get("float_values"):
                         mon.count("float_value_runs")
                     if style == "leader-follower" and max(len([n for n, idx in base["ops"] if v in idx]) for v in kernels.variables(base)) >= 3:
